@@ -20,6 +20,13 @@ NT_FIELDS = {}          # key of a tuple value built by a namedtuple class -> it
 
 def namedtuple_fields(module, name):
     """field names when the module-level `name` is bound to collections.namedtuple('X', fields)"""
+    cls = getattr(module, 'classes', {}).get(name)
+    if cls is not None and any((b or '').split('.')[-1] == 'NamedTuple' for b in cls.base_exprs) and not cls.methods:
+        # class X(NamedTuple): a: T; b: T
+        fields = [n_.target.id for n_ in cls.node.body if isinstance(n_, ast.AnnAssign) and isinstance(n_.target, ast.Name)]
+        if fields and not any(isinstance(n_, ast.AnnAssign) and n_.value is not None for n_ in cls.node.body):
+            return tuple(fields)
+        return None
     val = module.globals.get(name)
     if not isinstance(val, ast.Call):
         return None
@@ -375,6 +382,21 @@ class Interp(ExprMixin):
         tmp = f'__reduce_{node.lineno}_{node.col_offset}'
         cache = self.__dict__.setdefault('_reduce_stmts', {})
         stmts = cache.get(id(node))
+        if stmts is None and self._threads_accumulator(f_node, st):
+            # the folded function hands its accumulator argument back (`return out`): the accumulator is the initial object
+            # throughout, the loop only calls the function for its effect on it
+            stmts = ast.parse(f'{tmp} = 0\nfor {tmp}_x in 0:\n    0').body
+            stmts[0].value = init_node
+            stmts[1].iter = seq_node
+            stmts[1].body[0].value = ast.Call(func=f_node, args=[ast.Name(id=tmp, ctx=ast.Load()), ast.Name(id=tmp + '_x', ctx=ast.Load())],
+                                              keywords=[])
+            for s_ in stmts:
+                ast.copy_location(s_, node)
+                for n_ in ast.walk(s_):
+                    if not hasattr(n_, 'lineno'):
+                        ast.copy_location(n_, node)
+                ast.fix_missing_locations(s_)
+            cache[id(node)] = stmts
         if stmts is None:
             # built once per call site: the choices of forked re-executions are keyed by the identity of the nodes
             stmts = ast.parse(f'{tmp} = 0\nfor {tmp}_x in 0:\n    {tmp} = 0').body
@@ -397,6 +419,40 @@ class Interp(ExprMixin):
         v = st.env.get(tmp)
         return v if v is not None else Poly.atom(('fresh', fresh_id(), 'reduce'))
 
+    def _threads_accumulator(self, f_node, st):
+        """True when `f_node` is `lambda acc, x: g(..., acc, ...)` and g returns, on every path, the very parameter the
+        accumulator is passed for (never rebinding it)"""
+        if not (isinstance(f_node, ast.Lambda) and len(f_node.args.args) == 2 and isinstance(f_node.body, ast.Call)):
+            return False
+        acc = f_node.args.args[0].arg
+        call = f_node.body
+        try:
+            fv = self.eval(call.func, st)
+        except Exception:
+            return False
+        fi = fv.value if isinstance(fv, Const) and isinstance(fv.value, FuncInfo) else None
+        if fi is None:
+            return False
+        rets = [n_ for n_ in ast.walk(fi.node) if isinstance(n_, ast.Return)]
+        if not rets or not all(isinstance(r.value, ast.Name) for r in rets) or len({r.value.id for r in rets}) != 1:
+            return False
+        pname = rets[0].value.id
+        names = [a.arg for a in fi.node.args.posonlyargs + fi.node.args.args]
+        if pname not in names or any(isinstance(n_, ast.Name) and n_.id == pname and not isinstance(n_.ctx, ast.Load)
+                                     for n_ in ast.walk(fi.node)):
+            return False
+        if any(isinstance(n_, (ast.FunctionDef, ast.Lambda, ast.Global, ast.Nonlocal)) for n_ in ast.walk(fi.node) if n_ is not fi.node):
+            return False
+        k = names.index(pname)
+        passed = None
+        if k < len(call.args) and not any(isinstance(a, ast.Starred) for a in call.args):
+            passed = call.args[k]
+        for kw in call.keywords:
+            if kw.arg == pname:
+                passed = kw.value
+        return isinstance(passed, ast.Name) and passed.id == acc and \
+            sum(1 for n_ in ast.walk(call) if isinstance(n_, ast.Name) and n_.id == acc) == 1
+
     def _map_call(self, node, st):
         """map(f, seq) is the sequence [f(x) for x in seq]: evaluated as that comprehension"""
         cache = self.__dict__.setdefault('_map_nodes', {})
@@ -416,6 +472,13 @@ class Interp(ExprMixin):
         fn = node.func
         if isinstance(fn, ast.Name) and fn.id == 'map' and len(node.args) == 2 and not node.keywords and 'map' not in st.env:
             return self._map_call(node, st)
+        if len(node.args) == 2 and not node.keywords and (dotted(fn) or '') in ('itertools.starmap', 'starmap') \
+                and 'starmap' not in st.env:
+            # starmap(f, seq) over a sequence whose items are known: [f(*item) for item in seq]
+            seq = self.eval(node.args[1], st)
+            if isinstance(seq, Tup) and len(seq) <= 8 and all(isinstance(x, Tup) for x in seq.items):
+                fval = self.eval(node.args[0], st)
+                return Tup([self.call_value(fval, list(x.items), {}, st, node) for x in seq.items], 'list')
         if len(node.args) == 3 and not node.keywords and not getattr(self, 'comp_depth', 0) and \
                 (dotted(fn) or '') in ('functools.reduce', 'reduce') and 'reduce' not in st.env:
             return self._reduce_call(node, st)
@@ -505,6 +568,10 @@ class Interp(ExprMixin):
                         t = Tup(items, 'tuple')
                         NT_FIELDS[t.key] = tuple(fields)
                         return t
+                if v[0] == 'attrgetter' and len(args) == 1 and not kwargs:
+                    return self.load_attr(args[0], v[1], st, node)
+                if v[0] == 'itemgetter' and len(args) == 1 and not kwargs:
+                    return self.load_index(args[0], v[1])
                 if v[0] == 'partial':
                     # functools.partial(f, *a, **k)(*b, **m) is f(*a, *b, **{**k, **m})
                     _, inner, pargs, pkw = v
